@@ -68,6 +68,15 @@ def build_data(spec):
         elif kind == 'sorted_heavy':
             # heavy-tailed data in descending order
             z = 1e4 / (1 + i) ** 2
+        elif kind == 'top_binade':
+            # finite values in the top binade of the double range with mixed signs (+-inf replaced by +-float max through
+            # numpy.nan_to_num, float max used as a finite bound): every partial sum - and so every exact statistic of the
+            # location family - is finite, but a DIFFERENCE of two items or of an item and a running mean is not
+            import sys
+            tot = sum(Fraction(v) for v in xs)
+            sign = -1.0 if tot > 0 else 1.0 if tot < 0 else r.choice([-1.0, 1.0])
+            xs.append(sign * r.choice([1.0, 0.5, 0.75, r.uniform(0.5, 1.0)]) * sys.float_info.max)
+            continue
         elif kind in ('np_int64', 'np_int32'):
             # numpy fixed-width integers with a spread whose SQUARE does not fit the type (nanosecond timestamps a few
             # seconds apart; int32 counters): an intermediate computed in the item's own type wraps around silently
@@ -176,7 +185,7 @@ class C12(Check):
                    'min/max of an empty sequence with reduce=True emit None (pinned by the suite); mean of an empty sequence is outside the domain']
     ANCHORS = ['rxsci/math/sum.py', 'rxsci/math/mean.py', 'rxsci/math/min.py', 'rxsci/math/max.py', 'rxsci/math/variance.py',
                'rxsci/math/stddev.py', 'rxsci/math/formal/variance.py', 'rxsci/math/formal/stddev.py', 'rxsci/math/formal/__init__.py']
-    REQUIRED_TAGS = ['op=' + o for o in OPS] + ['plain', 'mux', 'group', 'km', 'n=0', 'n=1', 'n>=1000', 'n>1024', 'offset>=1e6', 'kind=np_int64', 'kind=np_int32', 'kind=outlier_first', 'kind=py_int_ns', 'groups-of-different-magnitudes']
+    REQUIRED_TAGS = ['op=' + o for o in OPS] + ['plain', 'mux', 'group', 'km', 'n=0', 'n=1', 'n>=1000', 'n>1024', 'offset>=1e6', 'kind=np_int64', 'kind=np_int32', 'kind=outlier_first', 'kind=py_int_ns', 'kind=top_binade', 'groups-of-different-magnitudes']
     REQUIRED_OBSERVED = ['values_compared', 'stream_equals_reduce_checks']
 
     def generate(self, rng, tier, shard, nshards):
@@ -192,8 +201,12 @@ class C12(Check):
             if n == 1100 and op not in ('fvariance', 'fstddev'):
                 n = 100         # (the 1100-item slot is for the formal operators: just beyond the 1000 items their documentation names)
             mode = modes[(k // 3) % 3] if k % 5 else modes[k % 3]
+            kind = rng.choice(kinds)
+            if (k // len(OPS)) % 6 == 5 and op in ('sum', 'mean', 'min', 'max'):
+                kind = 'top_binade'      # (only where the exact statistic itself is representable: not the dispersion family)
+                n = min(n, 100)
             yield {'op': op, 'mode': mode, 'km': (k // 7) % 3 == 0,
-                   'data': {'kind': rng.choice(kinds), 'n': n, 'offset': rng.choice(offsets), 'scale': rng.choice(scales),
+                   'data': {'kind': kind, 'n': n, 'offset': rng.choice(offsets), 'scale': rng.choice(scales),
                             'dseed': rng.randrange(1 << 30)}}
 
     # ------------------------------------------------------------------
